@@ -540,8 +540,13 @@ fn parse_dist_header_with_cache<'a>(
     let flags_len = (num_atom_cache_refs as usize) / 2 + 1;
     let (mut input, flags) = take(flags_len)(input)?;
 
+    // The LongAtoms bit is in the half byte after the references' half bytes.
     let long_atoms_flag_byte = flags[flags_len - 1];
-    let long_atoms = (long_atoms_flag_byte & 0x01) != 0;
+    let long_atoms = if num_atom_cache_refs % 2 == 0 {
+        (long_atoms_flag_byte & 0x01) != 0
+    } else {
+        (long_atoms_flag_byte & 0x10) != 0
+    };
 
     for i in 0..num_atom_cache_refs {
         let (new_input, internal_segment_index) = be_u8(input)?;
